@@ -431,6 +431,7 @@ func (d *Driver) GrantIfPaused() {
 	d.W.Mu.Lock()
 	if d.W.readerState == "paused" && d.allow == 0 {
 		d.allow = 1
+		d.W.log(Event{Kind: "grant"})
 	}
 	d.W.Mu.Unlock()
 	d.W.cond.Broadcast()
